@@ -1562,6 +1562,52 @@ example : lmShiftVec 1 (1/2 : ℝ) 10 [1/5] [[1], [2]] = [1] := by
   simp [lmShiftVec, diagJtJ, lmShift, lmDiag_closed, DVec.add, DVec.zero, k_real]
   norm_num
 
+/-! ## pass 11: the accumulated damping grows with every rejected trial; the Adaptive reaction, end to end -/
+
+/-- one more trial multiplies the diagonal entry by `1 + damping` -/
+theorem lmDiag_snoc (lo hi a l : ℝ) (damps : List ℝ) :
+    lmDiag lo hi a (damps ++ [l]) = lmDiag lo hi a damps * (1 + l) := by
+  rw [lmDiag_closed, lmDiag_closed]; simp [List.map_append, List.prod_append]; ring
+
+/-- **Every further trial of a call strictly increases the shift** `Λ_j` (for any entry, also one cut by the upper bound):
+the system handed to the solver after a rejection is more damped than the rejected one even before the strategy's new
+damping is counted — `Λ_j(new) − Λ_j(old) = (diagonal entry)·damping ≥ min·damping > 0`. -/
+theorem lmShift_strictMono_trials (lo hi a l : ℝ) (damps : List ℝ) (hlo : 0 < lo) (hlh : lo ≤ hi)
+    (hp : ∀ x ∈ damps, 0 < x) (hl : 0 < l) :
+    lmShift lo hi damps a + lo * l ≤ lmShift lo hi (damps ++ [l]) a ∧
+      lmShift lo hi damps a < lmShift lo hi (damps ++ [l]) a := by
+  unfold lmShift
+  rw [lmDiag_snoc]
+  have hc : lo ≤ min (max a lo) hi := le_min (le_max_right _ _) hlh
+  have hP := prod_one_add_ge damps hp
+  have hd : lo ≤ lmDiag lo hi a damps := by
+    rw [lmDiag_closed]
+    calc lo = lo * 1 := (mul_one lo).symm
+      _ ≤ min (max a lo) hi * (damps.map (fun lam => 1 + lam)).prod :=
+        mul_le_mul hc hP zero_le_one (le_trans hlo.le hc)
+  have h1 : lo * l ≤ lmDiag lo hi a damps * l := mul_le_mul_of_nonneg_right hd hl.le
+  have h2 : 0 < lo * l := mul_pos hlo hl
+  constructor <;> nlinarith
+
+/-- **Adaptive, end to end on the code's own system**: a worse trial whose step `D ≠ 0` solves the damped normal equations
+as `LM.step` builds them makes `Adaptive.update` set the damping to `min(damping·up, max) ≥ damping` — from the linear
+system to the new damping without any assumption on the predicted decrease or on `Λ`. -/
+theorem adaptive_code_rejection_raises_damping (J : DMat ℝ) (Dv R : DVec ℝ) (lo hi : ℝ) (damps : List ℝ)
+    (hw : ∀ r ∈ J, r.length = Dv.length) (hlen : R.length = J.length) (hlo : 0 < lo) (hlh : lo ≤ hi)
+    (hmax : ∀ a ∈ diagJtJ Dv.length J, a ≤ hi) (hp : ∀ l ∈ damps, 0 < l) (hne : damps ≠ [])
+    (hD : ∃ x ∈ Dv, x ≠ 0) (hs : SolvesDamped J (lmShiftVec Dv.length lo hi damps J) Dv R)
+    (h : Hyper ℝ) (s : SState ℝ) (last loss : ℝ) (hworse : last < loss) (hh : 0 < h.high) (hl : 0 < h.low)
+    (hup : 1 < h.up) (hsl : h.smin ≤ s.damping) (hsh : s.damping ≤ h.smax) (hpos : 0 < s.damping) :
+    let s' := stratUpd Kind.adaptive h s (last - loss) (qualityDen J Dv R)
+    s'.damping = min (s.damping * h.up) h.smax ∧ s.damping ≤ s'.damping :=
+  adaptive_rejected_up h s last loss _ hworse
+    (qualityDen_pos_of_normal_equations J _ Dv R hw hlen (by simp [lmShiftVec, diagJtJ_length _ J hw])
+      (lmShiftVec_pos _ J lo hi damps hlo hlh hmax hp hne) hD hs).1 hh hl hup hsl hsh hpos
+
+/-- non-vacuity: second trial of a call with dampings `1/5, 1/2` on the entry `5`, bounds `1/2 … 10`: `Λ` goes from 1 to 4 -/
+example : lmShift (1/2 : ℝ) 10 [1/5] 5 = 1 ∧ lmShift (1/2 : ℝ) 10 ([1/5] ++ [1/2]) 5 = 4 := by
+  constructor <;> (unfold lmShift; rw [lmDiag_closed]; norm_num)
+
 /-! ## non-vacuity: concrete runs of the model (`P = D = ℚ`-like reals, loss `x²`) -/
 
 section examples
